@@ -35,6 +35,18 @@ does with it:
   stand-alone distribution, Lognormal as a joint member, a UserDefinedDistribution whose sample_func is a
   script (the API hands it no generator: every call form returns the script), density-only gallery
   members (refuse).
+* udd cells: the one place where a distribution draws by calling user code (UserDefinedDistribution.sample_func;
+  DistributionGallery passes no sample_func, its BivariateGaussian member borrows Gaussian._sample and is decided as an
+  affine family).  The harness scripts the user's function (the t-th call returns the t-th scripted draw) and enumerates
+  what the function hands back: memory owner {fresh object, one reused object overwritten in place, a new view per
+  call onto one persistent overwritten array} x form {(dim,) float64, strided, read-only, float32, int64, CUQIarray,
+  (dim,1) column, (1,dim) row, python list, 0-d / python float for dim 1}.  One live object per (owner, form, route)
+  executes the complete history N in {1,2,3,dim,dim+1} x all call forms (+ every N once more); after every call:
+  column i of the result is the i-th draw the function produced during that very call (each draw used once, in
+  call order), N=1 -> CUQIarray / N>1 -> Samples with the distribution's geometry, the global numpy stream is
+  untouched, and every result returned EARLIER still holds the values it was returned with (results never share
+  memory with the user's work space or with each other).  Refusing a return form that is not a 1-D array of
+  length dim is accepted.
 """
 import contextlib
 import itertools
@@ -50,7 +62,10 @@ PROPERTY = "C05"
 RULE = ("cells = (Gaussian: parameterisation x matrix form x dim) + (Lognormal form x dim) + gallery + "
         "(GMRF: physical_dim x n x bc x order) + (generator family x parameter-form x dim) + "
         "(MHN: alpha x beta x gamma, internal sampler and public path) + (discipline objects) + (conditionals) + "
-        "(derived objects: conditioned conditionals, joint members/reductions, scripted user-defined sampler, gallery); "
+        "(derived objects: conditioned conditionals, joint members/reductions, scripted user-defined sampler, gallery) + "
+        "(user-supplied sampler: dim x memory owner of what sample_func returns; inside the cell every return form x route to the "
+        "object x the complete call history N in {1,2,3,dim,dim+1} x call forms on ONE live object, all earlier results "
+        "re-read after every later call); "
         "inside a cell every mean kind x N in {1,2,3} x {rng= keyword, rng positional, global numpy} is executed: the "
         "keyword and global forms on the complete standard-normal basis / the whole proposal alphabet / the whole grid, "
         "the positional form differentially against the keyword form on the same owned stream (zero + generic noise vector "
@@ -69,7 +84,14 @@ BOUND = {
              "48 discipline objects x N {1,2,3} x 3 rng kinds {RandomState, advanced RandomState, Generator} x 4 call forms; "
              "21 conditional objects x all proper subsets of their conditioning variables; 34 derived objects (21 conditioned "
              "conditionals with all conditioning orders, 6 joint members/reductions, 1 scripted user-defined sampler, 6 "
-             "density-only gallery members) x N {1,2,3} x 3 rng kinds x 4 call forms x {keyword, positional} per alternative route",
+             "density-only gallery members) x N {1,2,3} x 3 rng kinds x 4 call forms x {keyword, positional} per alternative route; "
+             "user-supplied sampler (UserDefinedDistribution.sample_func, scripted): dim {1,2,3,4} x owner {fresh, reused buffer, "
+             "view of a persistent overwritten array} x 11 return forms {(dim,) float64, strided, read-only, float32, int64, "
+             "CUQIarray, (dim,1), (1,dim), list, 0-d and python float for dim 1} (those that exist for the owner) x 3 routes "
+             "{stand-alone, geometry assigned afterwards, copy returned by calling the object} x one history of all N in "
+             "{1,2,3,dim,dim+1} x 6 call forms {sample(N), sample(N, rng=r), sample(N, r), sample(N=N, rng=r), sample(rng=r), "
+             "sample()} followed by every N again; every returned result re-read after each later call and after one further "
+             "call of the user's function",
     "thorough": "all three value catalogues; Gaussian dims 76 and 77 with N {1,2,3}; GMRF 1-D n=2..9 and n=76, 2-D up to 4x4; "
                 "12-point MHN alphabets; otherwise as quick",
 }
@@ -94,6 +116,11 @@ ASSUMPTIONS = [
     "UserDefinedDistribution: the API hands no generator to sample_func, so only 'every call form returns the user's script "
     "and leaves the global stream alone' is decided; a sample_func that itself draws from numpy's global stream is outside "
     "the statement's reach",
+    "user-supplied sampler: the draws are scripted (deterministic, all entries distinct), so 'independent draws' is decided as "
+    "'column i is the i-th value the user's function produced during this call'; extra calls of the function whose value is "
+    "discarded are tolerated (columns must be draws of this call, each used once, in call order); return forms other than a "
+    "1-D array(-subclass) of length dim ((dim,1), (1,dim), list, 0-d, python float) may be refused with any exception; "
+    "user callables of samplers (MH/CWMH proposals) are not direct draws from a distribution and belong to the sampler properties",
     "alternative routes to a derived object (conditioning order, joint reduction, stand-alone construction with the same "
     "parameters) are required to draw bit-identically from equal generator states: same class, same parameters",
 ]
@@ -1940,6 +1967,301 @@ def _eval_derived(cell, res):
 
 
 # =========================================================================================
+# engine E: samplers that call user code for every draw (UserDefinedDistribution.sample_func)
+# =========================================================================================
+# what the user's function hands back: who owns the memory x in which shape / container / dtype
+UDD_OWNERS = ("fresh", "reused", "view")
+#   fresh  : a new object with its own memory on every call
+#   reused : the very same object on every call, overwritten in place between calls (pre-allocated work buffer)
+#   view   : a new view object on every call onto one persistent array that is overwritten in place between calls
+_ALL_OWNERS = UDD_OWNERS
+# form -> (owners for which it exists, strict = a 1-D array(-subclass) of length dim: refusing it is not accepted, dims or None)
+UDD_FORMS = {
+    "flat": (_ALL_OWNERS, True, None),                    # float64 ndarray of shape (dim,)
+    "strided": (("reused", "view"), True, None),          # non-contiguous (dim,) view: one column of a 2-D work array
+    "readonly": (("fresh", "view"), True, None),          # (dim,) array flagged non-writeable
+    "float32": (("fresh", "reused"), True, None),
+    "int64": (("fresh", "reused"), True, None),
+    "cuqiarray": (("fresh", "reused"), True, None),       # what ``lambda: other_distribution.sample()`` returns
+    "column": (_ALL_OWNERS, False, None),                 # (dim, 1), the idiom of the class docstring
+    "row": (_ALL_OWNERS, False, None),                    # (1, dim)
+    "list": (("fresh", "reused"), False, None),           # python list of floats
+    "0d": (_ALL_OWNERS, False, (1,)),                     # numpy scalar / 0-d array for a one-dimensional distribution
+    "pyfloat": (("fresh",), False, (1,)),                 # python float for a one-dimensional distribution
+}
+UDD_ROUTES = ("stand-alone", "geometry-assigned", "copy-by-call")
+UDD_DIMS = (1, 2, 3, 4)
+# call forms: sample(N) / sample(N, rng=r) / sample(N, r) / sample(N=N, rng=r) and, for one draw, sample(rng=r) / sample()
+UDD_PATHS = ("global", "rng", "rng-pos", "rng-Nkw", "rng-noN", "bare")
+UDD_FORM_TEXT = dict(FORM_TEXT, **{"global": "sample(N)", "bare": "sample()"})
+
+
+def _udd_ns(dim):
+    return tuple(sorted({1, 2, 3, dim, dim + 1}))
+
+
+def _udd_history(dim):
+    """The complete call history executed on ONE live object: every N x every call form, then every N once more (a result
+    of the same size as an earlier one is requested again after results of every other size)."""
+    hist = []
+    for N in _udd_ns(dim):
+        for p in UDD_PATHS:
+            if p in ("rng-noN", "bare") and N != 1:
+                continue
+            hist.append((N, p))
+    for N in _udd_ns(dim):
+        hist.append((N, "global"))
+    return hist
+
+
+class _UserSampler:
+    """The user's sample_func: the t-th call returns the t-th scripted draw (all entries of all draws distinct, exactly
+    representable in float32 / as integers) in the container described by (owner, form)."""
+
+    def __init__(self, owner, form, dim, scale):
+        self.dim = dim
+        self.scale = 1.0 if form == "int64" else scale
+        self.t = 0
+        self._emit = self._make_emit(owner, form, dim)
+
+    def value(self, t):
+        return np.array([(-1) ** i * (8 * (t + 1) + i + 1) for i in range(self.dim)], dtype=float) * self.scale
+
+    def __call__(self):
+        v = self.value(self.t)
+        self.t += 1
+        return self._emit(v)
+
+    @staticmethod
+    def _make_emit(owner, form, dim):
+        from cuqi.array import CUQIarray
+        import cuqi
+        dt = {"float32": np.float32, "int64": np.int64}.get(form, float)
+        if owner == "fresh":
+            table = {
+                "flat": lambda v: v.copy(),
+                "float32": lambda v: v.astype(dt),
+                "int64": lambda v: v.astype(dt),
+                "column": lambda v: v.reshape(dim, 1).copy(),
+                "row": lambda v: v.reshape(1, dim).copy(),
+                "list": lambda v: v.tolist(),
+                "cuqiarray": lambda v: CUQIarray(v.copy(), geometry=cuqi.geometry.Continuous1D(dim)),
+                "0d": lambda v: np.float64(v[0]),
+                "pyfloat": lambda v: float(v[0]),
+            }
+            if form == "readonly":
+                def ro(v):
+                    a = v.copy()
+                    a.flags.writeable = False
+                    return a
+                return ro
+            return table[form]
+        if owner == "reused":
+            if form == "list":
+                lst = [0.0] * dim
+
+                def e(v):
+                    lst[:] = v.tolist()
+                    return lst
+                return e
+            if form == "strided":
+                work = np.zeros((dim, 2))[:, 0]
+            elif form == "cuqiarray":
+                work = CUQIarray(np.zeros(dim), geometry=cuqi.geometry.Continuous1D(dim))
+            else:
+                shape = {"flat": (dim,), "float32": (dim,), "int64": (dim,), "column": (dim, 1), "row": (1, dim), "0d": ()}[form]
+                work = np.zeros(shape, dtype=dt)
+
+            def e(v):
+                work[...] = v.reshape(work.shape)
+                return work
+            return e
+        # owner == "view": a new view object per call onto persistent, overwritten memory
+        if form in ("flat", "readonly"):
+            big = np.zeros(dim + 2)
+
+            def e(v):
+                big[1:1 + dim] = v
+                w = big[1:1 + dim]
+                if form == "readonly":
+                    w.flags.writeable = False
+                return w
+            return e
+        if form == "strided":
+            big = np.zeros((dim, 2))
+
+            def e(v):
+                big[:, 0] = v
+                return big[:, 0]
+            return e
+        if form == "column":
+            big = np.zeros((dim, 3))
+
+            def e(v):
+                big[:, 1] = v
+                return big[:, 1:2]
+            return e
+        if form == "row":
+            big = np.zeros((3, dim))
+
+            def e(v):
+                big[1, :] = v
+                return big[1:2, :]
+            return e
+        if form == "0d":
+            big = np.zeros(3)
+
+            def e(v):
+                big[1] = v[0]
+                return big[1:2].reshape(())
+            return e
+        raise HarnessError("no user sampler for %s/%s" % (owner, form))
+
+
+def _udd_build(route, smp, dim):
+    import cuqi
+    u = cuqi.distribution.UserDefinedDistribution(dim=dim, logpdf_func=lambda x: -0.5 * float(np.sum(np.square(x))), sample_func=smp)
+    if route == "geometry-assigned":
+        u.geometry = cuqi.geometry.Continuous1D(np.linspace(0.0, 1.0, dim))
+    elif route == "copy-by-call":
+        u = u()                   # no conditioning variables: the call returns a copy that shares the user's function
+    if u.dim != dim:
+        raise ValueError("dimension lost")
+    return u
+
+
+def _udd_cells(tier, k):
+    for dim in UDD_DIMS:
+        for owner in UDD_OWNERS:
+            yield {"kind": "udd", "dim": dim, "owner": owner, "cat": k}
+
+
+def _eval_udd(cell, res):
+    dim, owner, k = cell["dim"], cell["owner"], cell["cat"]
+    fam = "UserDefinedDistribution"
+    scale = 2.0 ** -(2 + k)
+    hist = _udd_history(dim)
+    fails = []          # (operation, where, message, detail)
+    evaluated = []      # every (form, route, N, path) executed
+    for form, (owners, strict, dims) in UDD_FORMS.items():
+        if owner not in owners or (dims is not None and dim not in dims):
+            continue
+        for route in UDD_ROUTES:
+            smp = _UserSampler(owner, form, dim, scale)
+            try:
+                d = _udd_build(route, smp, dim)
+            except Exception as e:
+                res.refused += 1
+                res.transitions += 1
+                res.outcomes.add("construct-refused:%s:%s" % (route, type(e).__name__))
+                continue
+            kept = []       # [returned object, private copy of its values, where, text of the call, already reported]
+
+            def verify_kept(later):
+                for item in kept:
+                    if item[4]:
+                        continue
+                    res.evaluations += 1
+                    try:
+                        now = _matrix(item[0], item[2]["N"], dim)
+                        same = np.array_equal(now, item[1], equal_nan=True)
+                    except Exception:
+                        now, same = None, False
+                    if not same:
+                        item[4] = True
+                        fails.append(("draw-aliased", item[2], "the draws returned by %s changed when %s was executed afterwards: the "
+                                      "returned object shares memory with the user's work space" % (item[3], later),
+                                      {"returned": item[1], "now": now}))
+
+            for N, path in hist:
+                where = {"form": form, "route": route, "N": N, "path": path}
+                evaluated.append(where)
+                res.state("%s/%s/N=%d/%s" % (form, route, N, path))
+                text = "%s with N=%d" % (UDD_FORM_TEXT[path], N)
+                np.random.seed(4242)
+                g0 = _global_state()
+                t0 = smp.t
+                r = np.random.RandomState(7) if path.startswith("rng") else None
+                try:
+                    out = d.sample(N) if path == "global" else (d.sample() if path == "bare" else _call_form(d, path, N, r))
+                except HarnessError:
+                    raise
+                except Exception as e:
+                    res.transitions += 1
+                    res.refused += 1
+                    res.outcomes.add("refused:%s:%s:%s" % (form, "N=1" if N == 1 else "N>1", type(e).__name__))
+                    baseline = path in ("global", "rng")
+                    if strict and (baseline or not isinstance(e, (TypeError, NotImplementedError))):
+                        fails.append(("sample-raises", where, "%s raised %r although sample_func returns an array of shape (dim,)" % (text, e), {}))
+                    verify_kept(text)
+                    continue
+                res.transitions += 1
+                t1 = smp.t
+                if _global_state() != g0:
+                    fails.append(("global-state-moved", where, "the global numpy generator advanced although sample_func does not use it", {}))
+                prob = _wrap_problem(out, N, d)
+                if prob:
+                    fails.append(("sample-shape", where, prob, {}))
+                    verify_kept(text)
+                    continue
+                M = _matrix(out, N, dim)
+                # column j must be one of the draws sample_func produced during this very call, in call order, none used twice
+                idx = []
+                for j in range(N):
+                    hit = [t for t in range(t0, t1) if np.array_equal(M[:, j], smp.value(t))]
+                    idx.append(hit[0] - t0 if hit else None)
+                res.evaluations += 1
+                ok = all(i is not None for i in idx) and all(idx[j] < idx[j + 1] for j in range(N - 1))
+                if not ok:
+                    fails.append(("draw-columns", where, "%s called sample_func %d time(s); the columns of the result are the draws number %s of "
+                                  "that call sequence (None = no draw of this call); expected one column per draw, in call order"
+                                  % (text, t1 - t0, idx), {"result": M, "scripted": np.array([smp.value(t) for t in range(t0, t1)]).T}))
+                else:
+                    res.outcomes.add("udd:%s:%s:N=%d:calls=%s" % (owner, form, N, "N" if t1 - t0 == N else t1 - t0))
+                where["returned"] = True
+                kept.append([out, M.copy(), where, text, False])
+                verify_kept(text)
+            smp()           # the user draws once more for himself: the work space is overwritten
+            verify_kept("the user's own next call of sample_func")
+            res.traces += 1
+            if res.sample is None:
+                res.sample = {"owner": owner, "form": form, "route": route, "dim": dim, "history": [list(h) for h in hist],
+                              "scripted_draws_first3": [smp.value(t) for t in range(3)]}
+    # one narrow signature per operation: the owner always, another axis only when the failure is specific to it
+    # (universe of an axis = the instances in which the operation could be evaluated at all: for verdicts about a returned
+    # result these are the calls that returned a well-formed result)
+    by_op = {}
+    for f in fails:
+        by_op.setdefault(f[0], []).append(f)
+    for op, lst in sorted(by_op.items()):
+        uni = [w for w in evaluated if op == "sample-raises" or w.get("returned")]
+        uni = uni + [w for _, w, _, _ in lst if w not in uni]
+        facet = ["returns=" + owner]
+        seen_n = sorted({w["N"] for _, w, _, _ in lst})
+        if set(seen_n) < {w["N"] for w in uni}:
+            facet.append("N=1" if seen_n == [1] else ("N>1" if 1 not in seen_n else "N=" + "/".join(map(str, seen_n))))
+        uni = [w for w in uni if w["N"] in seen_n]
+        seen_forms = {w["form"] for _, w, _, _ in lst}
+        rest = {w["form"] for w in uni} - seen_forms
+        if rest:
+            facet.append("form=" + "/".join(sorted(seen_forms)) if len(seen_forms) <= len(rest) else "form!=" + "/".join(sorted(rest)))
+        uni = [w for w in uni if w["form"] in seen_forms]
+        seen_routes = {w["route"] for _, w, _, _ in lst}
+        if seen_routes < {w["route"] for w in uni}:
+            facet.append("route=" + "/".join(sorted(seen_routes)))
+        seen_paths = {w["path"] for _, w, _, _ in lst}
+        # which earlier result is overwritten by a later call is a matter of the history, not of the call form
+        if op != "draw-aliased" and seen_paths < {w["path"] for w in uni}:
+            facet.append("path=" + "/".join(sorted(seen_paths)))
+        _, w, msg, detail = lst[0]
+        w = {a: v for a, v in w.items() if a != "returned"}
+        res.fail("C05|%s|%s|%s" % (fam, op, ",".join(facet)), msg + " [first at %s; %d instance(s)]" % (w, len(lst)), focus=w, **detail)
+    if not res.traces:
+        res.nontrivial = False
+    return res
+
+
+# =========================================================================================
 # module contract
 # =========================================================================================
 _LOGN_FORMS = ("scalar", "vector", "diag", "full")
@@ -1972,6 +2294,7 @@ def cells(tier, seed):
         out.append({"kind": "cond", "spec": name, "cat": k0})
     for name in _derived_spec_names():
         out.append({"kind": "derived", "spec": name, "cat": k0})
+    out.extend(_udd_cells(tier, k0))
     # long cells first so that the pool is balanced
     out.sort(key=lambda c: -(c.get("dim", 0) if c["kind"] == "gauss" else (c.get("n", 0) if c.get("n", 0) > 9 else 0)))
     from checks import _reassign
@@ -1993,7 +2316,8 @@ _COND_NAMES = ["Gaussian/mean=None", "Gaussian/mean=callable", "Gaussian/cov=cal
                "Uniform/low=None", "Beta/alpha=None", "InverseGamma/shape=None", "Cauchy/location=None", "Cauchy/scale=callable"]
 
 _DISPATCH = {"gauss": _eval_gauss, "lognormal": _eval_lognormal, "gallery": _eval_gallery, "gmrf": _eval_gmrf,
-             "gen": _eval_gen, "mhn": _eval_mhn, "disc": _eval_disc, "cond": _eval_cond, "derived": _eval_derived}
+             "gen": _eval_gen, "mhn": _eval_mhn, "disc": _eval_disc, "cond": _eval_cond, "derived": _eval_derived,
+             "udd": _eval_udd}
 
 
 def _reassign_observe(obj, pts):
